@@ -557,6 +557,10 @@ def run(chk) -> None:
     chk.robust |= {"stack-radius", "centroid-mean", "centroid-axes", "centroid-atoms", "stack-normals", "stack-offset", "stack-labels", "stack-emission", "stack-topology-enum", "base-normal-eval"}
     fi = repo.func(AN, "find_stackings")
     chk.note_function(fi)
+    if not any(isinstance(l, ast.For) and isinstance(l.iter, ast.Call) and astq.callee_name(l.iter) == "query_pairs" for l in fi.node.body):
+        from checks import c03e as _c03e
+
+        fi = _c03e.loopified(fi)  # a pair "loop" written as comprehensions is read as the loop it stands for
     fm = FlowMap(fi.node)
     inl = Inliner(fi.node)
     fold = Folder(repo, AN).fold
